@@ -626,14 +626,15 @@ Next ==
   \/ \E p \in 1..NP : ThirdPushSrc(p) \/ ThirdRewindSrc(p)
 
 (* projection of a state, compared with the real repository after every replayed step *)
-Proj(g, r, prs, ch, b, l) ==
+Proj(g, r, prs, ch, b, l, lm) ==
   [last |-> l,
+   msgs |-> {[p |-> p, code |-> lm[p]] : p \in 1..NP},
    refs |-> {[n |-> n, tip |-> r[n], atoms |-> {c \in g.anc[r[n]] : g.lab[c] # "merge"}] : n \in DOMAIN r},
    prs  |-> {[p |-> p, st |-> prs[p].st] : p \in 1..NP},
    kids |-> ch,
    bs   |-> {[c |-> c, s |-> b[c]] : c \in DOMAIN b},
    n    |-> g.n]
-NextJ == Next /\ out' = IF EmitJson THEN ToJson(Proj(G', refs', pr', child', bs', last')) ELSE ""
+NextJ == Next /\ out' = IF EmitJson THEN ToJson(Proj(G', refs', pr', child', bs', last', lastmsg')) ELSE ""
 Spec == Init /\ out = "" /\ [][NextJ]_vars
 
 Bound == G.n <= MaxC /\ TLCGet("level") <= MaxLevel
